@@ -312,9 +312,10 @@ Definition same_val (a b : pyval) : bool :=      (* Python `a is b` for the valu
   | _, _ => false
   end.
 
-(* branching.if_then_else with non-callable branches *)
-Fixpoint ite_fuel (fuel : nat) (cnd t f : pyval) : G pyval :=
-  if same_val t f then ret t else
+(* branching.if_then_else with non-callable branches; [ident] = whether the initial `truev is falsev` test applies
+   (it is made on the arguments as passed: for callable branches it compares the two callables, not their results) *)
+Fixpoint ite_fuel (fuel : nat) (ident : bool) (cnd t f : pyval) : G pyval :=
+  if andb ident (same_val t f) then ret t else
   match cnd with
   | PInt k => if orb (k =? 0) (k =? 1) then ret (if k =? 1 then t else f) else static_raise ValueError
   | PBool _ cb =>
@@ -322,7 +323,7 @@ Fixpoint ite_fuel (fuel : nat) (cnd t f : pyval) : G pyval :=
       | PList tl =>
           match fuel with O => static_raise RuntimeError | S fuel' =>
           match f with
-          | PList fl => l <- zipM (ite_fuel fuel' cnd) tl fl ;; ret (PList l)
+          | PList fl => l <- zipM (ite_fuel fuel' true cnd) tl fl ;; ret (PList l)
           | _ => static_raise TypeError end end
       | _ =>
           f' <- match t with PFxp _ _ => g <- ensurefxp f ;; ret (PFxp 0 g) | _ => ret f end ;;
@@ -330,7 +331,8 @@ Fixpoint ite_fuel (fuel : nat) (cnd t f : pyval) : G pyval :=
       end
   | _ => static_raise RuntimeError
   end.
-Definition if_then_else := ite_fuel 8.
+Definition if_then_else := ite_fuel 8 true.
+Definition if_then_else_evaluated := ite_fuel 8 false.     (* after callable branches have been run *)
 
 (* unary operators *)
 Definition unop (op : uop) (v : pyval) : G pyval :=
